@@ -37,7 +37,7 @@ fn small_xlsx() -> Vec<u8> {
     let mut c2 = xlsx::XCell::new(2, 1, xlsx::XVal::Num("3".into())); c2.formula = Some(xlsx::XFormula::SharedChild { si: 0 });
     let mut sh = xlsx::XSheet::new("S1", vec![xlsx::XCell::new(0, 0, xlsx::XVal::SharedStr(1)), c1, c2, xlsx::XCell::new(2, 2, xlsx::XVal::InlineStr(xlsx::XText::plain("i"))), xlsx::XCell::new(3, 0, xlsx::XVal::Bool(true)), xlsx::XCell::new(3, 1, xlsx::XVal::Err("#N/A".into()))]);
     sh.merges = vec!["A1:B1".into()];
-    sh.tables = vec![xlsx::XTable { name: "T".into(), display_name: "T".into(), rf: "A2:B4".into(), header_rows: None, totals_rows: Some(1), columns: vec!["a".into(), "b".into()] }];
+    sh.tables = vec![xlsx::XTable { name: "T".into(), display_name: "T".into(), rf: "A2:B4".into(), header_rows: None, totals_rows: Some(1), totals_row_shown: None, columns: vec!["a".into(), "b".into()] }];
     b.sheets = vec![sh, xlsx::XSheet::new("S2", vec![xlsx::XCell::new(0, 0, xlsx::XVal::Num("1".into()))])];
     b.defined_names = vec![("n".into(), "S1!$A$1".into())];
     b.date1904 = Some(false);
@@ -67,7 +67,7 @@ fn xls_book() -> biff8::BBook {
     ];
     let mut s = biff8::BSheet::new("S1", cells);
     s.merges = vec![vec![(0, 0, 0, 1)]];
-    let mut chs = crate::engine::choice::Chooser::new(&[0, 1]);
+    let mut chs = crate::engine::choice::Chooser::new(&[0, 1, 0, 1]);
     biff8::BBook { sheets: vec![s, biff8::BSheet::new("S2", vec![biff8::BCell::Number { r: 0, c: 0, xf: 0, v: 1.0 }])],
         sst_records: biff8::sst_records(&mut chs, &[biff8::SstString::plain("s0"), biff8::SstString { text: "s\u{20ac}1".into(), runs: 1, ext: vec![1, 2] }], 2),
         formats: vec![(164, "yyyy\\-mm".into())], xfs: vec![0, 14, 164], extern_sheets: Some(vec![(1, 1)]), names: vec![("n".into(), vec![0x3A, 0, 0, 0, 0, 0, 0])], ..Default::default() }
